@@ -81,17 +81,9 @@ theorem covN_cast (e : Node) :
 
 theorem covN_assign (op : String) (l r : Node) :
     covN (.assign op l r) =
-      if !(op == "=" && l.isId && allowRhs r.rmCast1) then .ok ⟨1, 0, .assign op l r⟩
+      if !(op == "=" && l.isId && allowRhs r.rmCast) then .ok ⟨1, 0, .assign op l r⟩
       else covN r >>= fun c => .ok ⟨c.up, c.inner, .assign op l c.mod⟩ := by
-  cases r
-  case cast e =>
-    simp only [covN, Node.rmCast1]
-    split
-    · rfl
-    · cases covN e <;> rfl
-  all_goals
-    simp only [covN, Node.rmCast1]
-    rfl
+  simp only [covN]; rfl
 
 theorem covN_unop (op : String) (e : Node) :
     covN (.unop op e) =
